@@ -401,6 +401,24 @@ class Replay:
                 got_t = sorted(res["out"].get("targets") or [])
                 if got_t != want:
                     self.mm("C07", "analyze reports %s where the specification's change set affects %s" % (got_t, want), i)
+        elif a == "CpShow":
+            res = fx.monorail(["checkpoint", "show"])
+            obs = post["obs"]
+            if obs["k"] == "cp_show_error":
+                if res["rc"] == 0:
+                    self.mm("C19", "checkpoint show answered where the specification has %s" % (
+                        "a truncated checkpoint file" if post["cpfile"] == "torn" else "no checkpoint"), i)
+            elif res["rc"] != 0 or not isinstance(res["out"], dict) or not isinstance(res["out"].get("checkpoint"), dict):
+                self.mm("C19", "checkpoint show failed where the specification has a checkpoint to show", i)
+            else:
+                got = res["out"]["checkpoint"]
+                mcp = obs["cp"]
+                if got.get("id") != self.commits[mcp["id"] - 1]:
+                    self.mm("C19", "checkpoint show names another commit than the last update recorded", i)
+                want_p = {PATHS[q]: ("" if c == 0 else sha(c)) for q, c in mcp["pend"].items() if c != -1}
+                if (got.get("pending") or {}) != want_p:
+                    self.mm("C19", "checkpoint show lists other pending paths/checksums than the last update recorded: %s vs %s" % (
+                        sorted(got.get("pending") or {}), sorted(want_p)), i)
         elif a == "ResultShow":
             res = fx.monorail(["result", "show"])
             want_r = post["obs"]["run"]
